@@ -107,6 +107,11 @@ func APIMultiaddr() *rapid.Generator[api.Multiaddr] {
 // IPFSID draws an IPFS daemon identity.
 func IPFSID() *rapid.Generator[*api.IPFSID] {
 	return rapid.Custom(func(t *rapid.T) *api.IPFSID {
+		if rapid.IntRange(0, 3).Draw(t, "daemonDown") == 0 {
+			// what Cluster.ID() reports while the IPFS daemon cannot be
+			// reached: no peer ID, no addresses, the error text
+			return &api.IPFSID{Error: "Post \"http://127.0.0.1:5001/api/v0/id\": dial tcp 127.0.0.1:5001: connect: connection refused"}
+		}
 		return &api.IPFSID{
 			ID:        Peer().Draw(t, "id"),
 			Addresses: rapid.SliceOfN(APIMultiaddr(), 0, 3).Draw(t, "addrs"),
